@@ -126,6 +126,7 @@ Definition instr_match (x : lstmt) (o : Z * list oarg) : bool :=
   | Instr op _ _ (Known args) =>
       if op =? (-1) then (length args =? length (snd o))%nat && args_subset args (snd o)
       else (op =? fst o) && forall2b arg_match args (snd o)
+  | Instr op _ _ Blob => op =? fst o      (* @blob=: the bytes are the user's, only the opcode is compared *)
   | _ => false
   end.
 
